@@ -1,20 +1,169 @@
 /-
   C08 — An inode stays valid exactly as long as the client holds lookup references to it.
 
-  PROPERTY THEOREMS ONLY (model: `Fbr.PtRefs`; lemmas: `Fbr.Lemmas.Pt*`).
+  PROPERTY THEOREMS ONLY.  Model: `Fbr.PtRefs` (inode table of the passthrough file system,
+  function by function: `do_lookup`, `forget_one`, `allocate_inode`, `UniqueInodeGenerator`,
+  `InodeStore`, and the reference handling of lookup/create/mkdir/mknod/symlink/link/readdirplus/
+  forget/batch_forget/destroy/init).  Specification: `Fbr.PtSpec` (`Spec` = what a client computes
+  from its requests and the replies: entries delivered − counts forgotten, truncated at 0).
+  Lemmas: `Fbr.Lemmas.Pt*`.
+
+  A *history* is any list of requests, each with an optional RLIMIT headroom (descriptor
+  allocations inside the request fail beyond it) and with every host answer as an argument —
+  the theorems quantify over all of them, and over any fault oracle `Env.failAt`.
+  `St.lookups` is a ghost counter of successful `do_lookup`s; `lookups + 2 < U64_MAX` says the u64
+  reference counter does not saturate (fewer than 2^64 − 3 entries were ever returned).
+  `St.clobbered` is a ghost flag: `InodeStore::insert` replaced a live entry.
+
+  Status.  Full strength for `use_host_ino = false` (both `inode_file_handles` modes, every
+  history).  For `use_host_ino = true` the refinement is proved under `clobbered = false`
+  (`…_hostino_partial`) and `hostino_reuse_counterexample` shows that the hypothesis cannot be
+  dropped: known finding `C08:number-aliased:host-ino-reused-while-held`
+  (inode_file_handles ∧ use_host_ino, host inode number reused while the old file is referenced).
 -/
 import Fbr.PtRefs
+import Fbr.PtSpec
 import Fbr.Lemmas.PtMap
 import Fbr.Lemmas.PtProj
 import Fbr.Lemmas.Pack
 import Fbr.Lemmas.PtRefsBasic
+import Fbr.Lemmas.PtRun
+import Fbr.Lemmas.PtFresh
+import Fbr.Lemmas.PtSession
 
 namespace Fbr.Thm.C08
 open Fbr.PtRefs
 
-/-- The root can never be forgotten: `forget_one` on inode 1 is the identity, whatever the count. -/
-theorem root_never_forgotten (e : Env) (s : St) (n : Nat) : forgetOne e s ROOT_ID n = s := by
-  simp [forgetOne]
+abbrev History := List (Option Nat × Op)
+
+/-- **Every history** (any requests, any host answers, any descriptor-fault placement, with or
+    without file handles), `use_host_ino = false`: for every inode number other than the root, the
+    stored reference count is exactly the client's count — entries delivered by lookup / create /
+    mkdir / mknod / symlink / link / readdirplus minus the counts forgotten (single, batched,
+    over-counted; truncated at 0) — and the number is stored iff that count is positive.
+    Entries that did not reach the client (readdirplus entry refused with `Ok(0)` or `Err`, failed
+    create) leave no reference behind. -/
+theorem refcount_refines_spec (e : Env) (hk : e.useHostIno = false) (h : History)
+    (hsat : (run e St.fresh h).1.lookups + 2 < U64_MAX) :
+    Ref (run e St.fresh h).1 (Spec.init.run h (run e St.fresh h).2) :=
+  (run_good e h ⟨never_clobbers_keep e hk h, hsat⟩).ref
+
+/-- The same refinement in either mode, for histories in which no insert replaced a live entry.
+    PARTIAL: with `use_host_ino = true` the hypothesis `clobbered = false` is not discharged (it
+    fails for `inode_file_handles ∧ use_host_ino` when the host reuses an inode number, see the
+    counterexample; for `inode_file_handles = false` it holds on every run of the correspondence
+    harness but the packing invariant needed to prove it is not formalised here). -/
+theorem refcount_refines_spec_hostino_partial (e : Env) (h : History)
+    (hcl : (run e St.fresh h).1.clobbered = false)
+    (hsat : (run e St.fresh h).1.lookups + 2 < U64_MAX) :
+    Ref (run e St.fresh h).1 (Spec.init.run h (run e St.fresh h).2) :=
+  (run_good e h ⟨hcl, hsat⟩).ref
+
+def cexEnv : Env := { useHostIno := true, noOpen := false, noOpendir := false, failAt := fun _ => false }
+
+/-- init; lookup "f" → host file (ino 1, handle 1); the file is unlinked and its inode number
+    reused: lookup "f" → host file (ino 1, handle 2) -/
+def cexHist : History :=
+  [ (none, .init (.ok { id := ⟨0, 0, 0⟩, fh := some 0, safe := true, dir := true })),
+    (none, .lookup ROOT_ID false (.ok { id := ⟨1, 0, 0⟩, fh := some 1, safe := true })),
+    (none, .lookup ROOT_ID false (.ok { id := ⟨1, 0, 0⟩, fh := some 2, safe := true })) ]
+
+/-- The refinement is FALSE with `inode_file_handles ∧ use_host_ino` when the host reuses an inode
+    number while the client still references the old file: both lookups return number
+    `(1 << 47) | 1`, the client holds two references, the server's entry was replaced and counts one
+    (so one forget of the old reference invalidates the new file). -/
+theorem hostino_reuse_counterexample :
+    cexEnv.useHostIno = true
+    ∧ (run cexEnv St.fresh cexHist).1.lookups + 2 < U64_MAX
+    ∧ ¬ Ref (run cexEnv St.fresh cexHist).1 (Spec.init.run cexHist (run cexEnv St.fresh cexHist).2) := by
+  refine ⟨rfl, by decide, fun hr => ?_⟩
+  have := hr 140737488355329 (by decide)
+  revert this
+  decide
+
+/-- An inode number (other than the root) resolves — `inode_map.get` finds it — exactly while the
+    client's count is positive; corollary of the refinement. -/
+theorem valid_iff_positive (e : Env) (hk : e.useHostIno = false) (h : History)
+    (hsat : (run e St.fresh h).1.lookups + 2 < U64_MAX) (i : Ino) (hi : i ≠ ROOT_ID) :
+    (mget (run e St.fresh h).1.data i).isSome = true
+      ↔ 0 < (Spec.init.run h (run e St.fresh h).2).held i := by
+  have := refcount_refines_spec e hk h hsat i hi
+  cases hm : mget (run e St.fresh h).1.data i with
+  | none =>
+    rw [hm] at this
+    by_cases hz : (Spec.init.run h (run e St.fresh h).2).held i = 0
+    · simp [hz]
+    · simp [hz] at this
+  | some d =>
+    rw [hm] at this
+    by_cases hz : (Spec.init.run h (run e St.fresh h).2).held i = 0
+    · simp [hz] at this
+    · simp; omega
+
+/-- The root can never be forgotten: `forget_one` on inode 1 is the identity whatever the count,
+    a batch of forgets leaves the root entry untouched, and along any history without
+    `destroy`/re-`init` (from any state, any mode) the root entry stays in the table. -/
+theorem root_never_forgotten (e : Env) :
+    (∀ s n, forgetOne e s ROOT_ID n = s)
+    ∧ (∀ s l, mget (batchForget e s l).data ROOT_ID = mget s.data ROOT_ID)
+    ∧ (∀ s (h : History), hasDestroy h = false → (mget s.data ROOT_ID).isSome = true →
+        (mget (run e s h).1.data ROOT_ID).isSome = true) :=
+  ⟨fun s n => forgetOne_root e s n, fun s l => batchForget_root e l s,
+   fun s h hd hr => (run_tr e h s Spec.init).rootLive hd hr⟩
+
+/-- Over-forgetting saturates: a count at least as large as the stored one removes the entry
+    (it never goes negative / wraps), and further forgets of that number change nothing. -/
+theorem over_forget_saturates (e : Env) (s : St) (i : Ino) (d : IData) (n m : Nat)
+    (hi : i ≠ ROOT_ID) (hd : mget s.data i = some d) (hn : d.refs ≤ n) :
+    mget (forgetOne e s i n).data i = none
+    ∧ forgetOne e (forgetOne e s i n) i m = forgetOne e s i n := by
+  have key : mget (forgetOne e s i n).data i = none := by
+    rw [forgetOne_data_self e s i n d hi hd]
+    simp; omega
+  exact ⟨key, forgetOne_absent e _ i m key⟩
+
+/-- While valid, one host file has one inode number (`use_host_ino = false`, any session =
+    INIT followed by any history without destroy/re-init): two live numbers whose entries have the
+    same host identity — `(st_ino, st_dev, mnt_id)` and file handle — are the same number.  (That a
+    number denotes one host file is the functionality of `data`.) -/
+theorem number_injective (e : Env) (hk : e.useHostIno = false) (root : HAns) (h : History)
+    (hnd : hasDestroy h = false) (i j : Ino) (di dj : IData)
+    (hi : mget (run e (afterInit e root) h).1.data i = some di)
+    (hj : mget (run e (afterInit e root) h).1.data j = some dj)
+    (hid : di.id = dj.id) (hfh : di.fh = dj.fh) : i = j :=
+  ((run_tr e h (afterInit e root) Spec.init).inj hk hnd (inj_afterInit e root)).injective hi hj hid hfh
+
+/-- A file looked up again after being forgotten gets the same number (`use_host_ino = false`,
+    inodes tracked by descriptors): if a lookup of host file `f` returned `ino`, then after ANY
+    history without destroy/re-init — forgets of `ino` down to zero, over-forgets, lookups of other
+    files, … — in which no file handles are in use, every later successful lookup of `f` (through
+    any parent / name) returns `ino` again. -/
+theorem number_stable_after_forget (e : Env) (hk : e.useHostIno = false) (s : St) (p : Ino)
+    (pst : Bool) (f : HFile) (hf : f.fh = none) (ino : Ino)
+    (h1 : (doLookup e s p pst (.ok f)).2 = .ok ino)
+    (h : History) (hnd : hasDestroy h = false)
+    (hnh : (run e (doLookup e s p pst (.ok f)).1 h).1.byHandle = [])
+    (p' : Ino) (pst' : Bool) (ino' : Ino)
+    (h2 : (doLookup e (run e (doLookup e s p pst (.ok f)).1 h).1 p' pst' (.ok f)).2 = .ok ino') :
+    ino' = ino := by
+  have r1 := doLookup_records_fd e s p pst f hf h1
+  have r2 := (run_tr e h (doLookup e s p pst (.ok f)).1 Spec.init).idStable hk hnd hnh _ _ r1
+  exact doLookup_uses_fd e hk _ p' pst' f hf r2 h2
+
+/-- … and with file handles the handle → number map is just as stable. -/
+theorem number_stable_after_forget_handles (e : Env) (hk : e.useHostIno = false) (s : St) (h : History)
+    (hnd : hasDestroy h = false) (k : FhId) (i : Ino) (hm : mget s.byHandle k = some i) :
+    mget (run e s h).1.byHandle k = some i :=
+  (run_tr e h s Spec.init).hStable hk hnd k i hm
+
+/-- Rename and unlink do not touch the inode table: every number stays valid with the same entry
+    (so a referenced inode survives rename, and unlink when tracked by descriptor). -/
+theorem survives_rename_and_unlink (e : Env) (s : St) (p1 p2 : Ino) (st1 st2 : Bool) (hr : Errno) :
+    (opRename e s p1 st1 p2 st2 hr).1.data = s.data ∧ (opUnlink e s p1 st1 hr).1.data = s.data := by
+  constructor
+  · have := step_tr e s Spec.init (.rename p1 st1 p2 st2 hr)
+    exact (Tr.data_eq_of_frame (e := e) (s := s) (op := .rename p1 st1 p2 st2 hr))
+  · exact (Tr.data_eq_of_frame (e := e) (s := s) (op := .unlink p1 st1 hr))
 
 /-- `(unique_id << 47) | ino` is injective on (id, host inode ≤ MAX_HOST_INO), the virtual range
     (bit 55 set) is disjoint from the host range and injective in (id, counter), no packed number
@@ -34,15 +183,29 @@ theorem unique_inode_packing_injective (u1 u2 i1 i2 : Nat)
   unfold ROOT_ID VFS_MAX_INO
   refine ⟨?_, ?_, ?_, ?_, ?_, ?_, ?_⟩ <;> omega
 
-/-- Over-forgetting saturates: a count at least as large as the stored one removes the entry
-    (it never goes negative / wraps), and further forgets of that number change nothing. -/
-theorem over_forget_saturates (e : Env) (s : St) (i : Ino) (d : IData) (n m : Nat)
-    (hi : i ≠ ROOT_ID) (hd : mget s.data i = some d) (hn : d.refs ≤ n) :
-    mget (forgetOne e s i n).data i = none
-    ∧ forgetOne e (forgetOne e s i n) i m = forgetOne e s i n := by
-  have key : mget (forgetOne e s i n).data i = none := by
-    rw [forgetOne_data_self e s i n d hi hd]
-    simp; omega
-  exact ⟨key, forgetOne_absent e _ i m key⟩
+/-! ### non-vacuity -/
+
+def exEnv : Env := { useHostIno := false, noOpen := false, noOpendir := false, failAt := fun _ => false }
+
+/-- init; lookup a; lookup a; readdirplus delivering a and refusing b; forget a 2; forget a 9 -/
+def exHist : History :=
+  [ (none, .init (.ok { id := ⟨0, 0, 0⟩, fh := none, safe := true, dir := true })),
+    (none, .lookup ROOT_ID false (.ok { id := ⟨1, 0, 0⟩, fh := none, safe := true })),
+    (none, .lookup ROOT_ID false (.ok { id := ⟨1, 0, 0⟩, fh := none, safe := true })),
+    (none, .opendir ROOT_ID 0),
+    (none, .readdirplus ROOT_ID 1 0 (.ok [.dot, .name (.ok { id := ⟨1, 0, 0⟩, fh := none, safe := true }),
+        .name (.ok { id := ⟨2, 0, 0⟩, fh := none, safe := true })]) 1 .full),
+    (none, .forget 2 2) ]
+
+/-- the hypotheses of `refcount_refines_spec` are satisfiable by a history that exercises lookup,
+    readdirplus (one entry delivered, one refused) and forget: count 3 − 2 = 1 for "a", the refused
+    entry left nothing behind -/
+example :
+    (run exEnv St.fresh exHist).1.lookups + 2 < U64_MAX
+    ∧ (mget (run exEnv St.fresh exHist).1.data 2).map (·.refs) = some 1
+    ∧ (Spec.init.run exHist (run exEnv St.fresh exHist).2).held 2 = 1
+    ∧ mget (run exEnv St.fresh exHist).1.data 3 = none
+    ∧ (Spec.init.run exHist (run exEnv St.fresh exHist).2).held 3 = 0 := by
+  decide
 
 end Fbr.Thm.C08
